@@ -58,6 +58,13 @@ def c06(tier, seed):
             jobs += _lu(m, maxcands=9, seed=seed % 7, timeout_ms=60000, max_paths=20000, **{_KNOWN: 0})
     # exclusion whose subtracted branch runs into a userset cycle (reports the finding "exclusion drops every user")
     jobs += _lu("lu_excl_cycle", maxcands=10, invalid=0, filters="types", timeout_ms=60000, max_paths=6000)
+    # usersets under the operands of an intersection (a user reached through two groups must count once) and the
+    # same userset-bearing relation under both operands (whole universes of 12 / 16 tuples)
+    jobs += _lu("inter_userset", maxcands=16, invalid=0, filters="types", timeout_ms=60000, max_paths=20000)
+    jobs += _lu("shared_userset", maxcands=16, invalid=0, filters="types", timeout_ms=60000, max_paths=20000)
+    # the second object of every type is called `type:2*` (an ordinary id that ends in the wildcard character)
+    for m in ["exclusion", "wildcard"] + ([] if q else ["inter_excl", "lu_nested_excl", "lu_userset_wild"]):
+        jobs += _lu(m, maxcands=12, invalid=0, filters="types", starid=1, timeout_ms=60000, max_paths=20000)
     if q:
         for m in MODELS_QUICK + ["condition"]:
             # A: valid tuples only, filters = the types (objects and typed wildcards as subjects)
